@@ -356,9 +356,12 @@ Lemma svc_upsert_svcs i l y :
 Proof.
   induction l as [|z l IH]; cbn [svc_upsert]; [intros [<-|[]]; right; reflexivity|].
   destruct (seqb (s_id (ss_svc z)) (s_id (i_svc i))).
-  - intros [<-|H]; left; [exists z; split; [left; reflexivity|reflexivity] | exists y; split; [right; exact H|reflexivity]].
-  - intros [<-|H]; [left; exists y; split; [left; reflexivity|reflexivity]|].
-    destruct (IH H) as [(w & Hw & E)|A]; [left; exists w; split; [right; exact Hw|exact E] | right; exact A].
+  - intros [E|H]; left.
+    + exists z. split; [left; reflexivity|]. rewrite <- E. reflexivity.
+    + exists y. split; [right; exact H|reflexivity].
+  - intros [E|H].
+    + left. exists z. split; [left; reflexivity|]. rewrite E. reflexivity.
+    + destruct (IH H) as [(w & Hw & E)|A]; [left; exists w; split; [right; exact Hw|exact E] | right; exact A].
 Qed.
 
 Lemma node_upsert_svcs (Q : svc -> Prop) i h :
@@ -366,14 +369,16 @@ Lemma node_upsert_svcs (Q : svc -> Prop) i h :
   forall x y, In x (node_upsert i h) -> In y (ns_svcs x) -> Q (ss_svc y).
 Proof.
   intros Hi. induction h as [|z h IH]; intros Hh x y; cbn [node_upsert].
-  - intros [<-|[]]. cbn [ns_svcs svc_upsert]. intros [<-|[]]. exact Hi.
+  - intros [E|[]] Hy. rewrite <- E in Hy. cbn [ns_svcs svc_upsert] in Hy. destruct Hy as [E'|[]].
+    rewrite <- E'. exact Hi.
   - destruct (seqb (n_name (ns_node z)) (n_name (i_node i))).
-    + intros [<-|Hx] Hy.
-      * cbn [ns_svcs] in Hy. destruct (svc_upsert_svcs i (ns_svcs z) y Hy) as [(w & Hw & E)|E]; rewrite E; [|exact Hi].
+    + intros [E|Hx] Hy.
+      * rewrite <- E in Hy. cbn [ns_svcs] in Hy.
+        destruct (svc_upsert_svcs i (ns_svcs z) y Hy) as [(w & Hw & E')|E']; rewrite E'; [|exact Hi].
         apply (Hh z w); [left; reflexivity | exact Hw].
       * apply (Hh x y); [right; exact Hx | exact Hy].
-    + intros [<-|Hx] Hy.
-      * apply (Hh x y); [left; reflexivity | exact Hy].
+    + intros [E|Hx] Hy.
+      * apply (Hh x y); [left; exact E | exact Hy].
       * apply IH with (x := x); auto. intros x' y' Hx' Hy'. apply (Hh x' y'); [right; exact Hx' | exact Hy'].
 Qed.
 
